@@ -142,6 +142,7 @@ def end_to_end_failure(m, envs, via):
 
 
 def check(stats, m, envs, rat_points=None, template=None, sub="steps", limit=1500, end_to_end=True):
+    m = safe(m)
     stats.case()
     T.install_spy()
     if template:
@@ -387,7 +388,7 @@ def make_big(stats):
     @given(st.data())
     def test(data):
         names = data.draw(S.name_lists(2, 3))
-        m = data.draw(big_inputs(names))
+        m = safe(data.draw(big_inputs(names)))
         size = M.size(m)
         stats.count("big-size>=300" if size >= 300 else "big-size<300")
         envs = draw_points(data, names, 3)
